@@ -85,6 +85,14 @@ CHECKS = {
              "leaked, and exhaustion is never unwrapped. Does not decide untracked allocations or Arc cycles.",
         note="trusts std atomics; count*size_of wrap in release is bounded by C01 limits, not re-proved",
         ref="DESIGN.md section 3 C13"),
+    "C14": dict(
+        technique="read-layout reconstruction from MIR of every header parser (primitive, distribution constants, field binding, controlling conditions) compared with a table reviewed against the specification; decision-table extraction of canvas predicates by abstract evaluation",
+        text="Decides the layout half: for 30 header parsers (160 reads) the order, primitive, distribution, field binding and condition of "
+             "every bitstream read equal the reviewed table, so a changed distribution, dropped/reordered field or altered presence "
+             "condition is reported with the first differing read; the canvas predicates gating blending fields equal their definition on "
+             "a grid of crop rectangles. Does not decide the primitive readers' arithmetic or accessor values.",
+        note="19 of 30 tables were compared by hand with ISO/IEC 18181-1 (listed in tools/gen_bitspec.py), the others are snapshots marked reviewed=false",
+        ref="DESIGN.md section 3 C14"),
     "C15": dict(
         technique="symbolic affine evaluation of MIR (abstract interpretation over {x,y,w,h,1}) of the three orientation maps, coefficient comparison; control-dependence / must-pass-through for channel order",
         text="Decides the coordinate-map half for all sizes and coordinates: for each of the eight orientations the maps in "
@@ -151,7 +159,7 @@ def main():
         json.dump(m, fh, indent=1)
 
 
-PENDING = ["C01", "C02", "C05", "C06", "C07", "C10", "C11", "C13", "C14", "C15", "C16"]
+PENDING = []
 
 if __name__ == "__main__":
     main()
